@@ -68,11 +68,15 @@ func drawLuaOptions(t *core.Tape) optVariant {
 	case 1:
 		return optVariant{name: "autogrow-stack", o: lua.Options{CallStackSize: 120, MinimizeStackMemory: true, RegistrySize: 1024, RegistryMaxSize: 1024 * 80, RegistryGrowStep: 32}}
 	case 2:
-		return optVariant{name: "tiny-growing-registry", o: lua.Options{CallStackSize: 100, RegistrySize: 300, RegistryMaxSize: 1024 * 80, RegistryGrowStep: 7}}
+		// the registry (of the main thread and of every coroutine) starts far below what the program needs and
+		// grows in small steps, so that growth happens at many different points of a run
+		size := []int{32, 64, 128, 300}[t.Choose(4)]
+		step := []int{1, 7, 33}[t.Choose(3)]
+		return optVariant{name: fmt.Sprintf("tiny-growing-registry-%d+%d", size, step), o: lua.Options{CallStackSize: 100, RegistrySize: size, RegistryMaxSize: 1024 * 80, RegistryGrowStep: step}}
 	case 3:
 		return optVariant{name: "defaults", o: lua.Options{CallStackSize: lua.CallStackSize, RegistrySize: lua.RegistrySize}}
 	case 4:
-		return optVariant{name: "autogrow+tinyreg", o: lua.Options{CallStackSize: 64, MinimizeStackMemory: true, RegistrySize: 300, RegistryMaxSize: 1024 * 80, RegistryGrowStep: 33}}
+		return optVariant{name: "autogrow+tinyreg", o: lua.Options{CallStackSize: 64, MinimizeStackMemory: true, RegistrySize: []int{48, 300}[t.Choose(2)], RegistryMaxSize: 1024 * 80, RegistryGrowStep: 33}}
 	}
 	return optVariant{name: "small", o: hostapi.SmallOptions()}
 }
